@@ -62,6 +62,12 @@ func (cc *callCache) Delete(index int) {
 	}
 }
 
+func (cc *callCache) Len() int {
+	cc.Lock()
+	defer cc.Unlock()
+	return len(cc.c)
+}
+
 func (cc *callCache) Take() (calls []call) {
 	cc.Lock()
 	defer cc.Unlock()
@@ -205,12 +211,23 @@ func (c *Caller) send(id string, responder chan []call) bool {
 }
 
 func (c *Caller) response(id string) {
-	if responder, ok := c.responders.Pop(id); ok {
-		responder := responder.(chan []call)
-		if !c.send(id, responder) {
-			if !c.responders.SetIfAbsent(id, responder) {
-				responder <- nil
-			}
+	for {
+		popped, ok := c.responders.Pop(id)
+		if !ok {
+			return
+		}
+		responder := popped.(chan []call)
+		if c.send(id, responder) {
+			return
+		}
+		if !c.responders.SetIfAbsent(id, responder) {
+			responder <- nil
+			return
+		}
+		// While the responder was out of the map a call may have been published whose
+		// publisher found no responder to wake: look again now that it is registered.
+		if calls, ok := c.calls.Get(id); !ok || calls.(*callCache).Len() == 0 {
+			return
 		}
 	}
 }
@@ -260,6 +277,9 @@ func (c *Caller) begin(ctx context.Context) []call {
 			}
 			return newValue
 		})
+		// a call may have been published between the check above and the registration of
+		// the responder; its publisher found no responder to wake, so look again.
+		c.response(id)
 		if c.IdleTimeout > 0 {
 			ctx, cancel := context.WithTimeout(ctx, c.IdleTimeout)
 			defer cancel()
